@@ -558,6 +558,13 @@ impl Dedup {
     }
 }
 
+#[cfg(feature = "quinn_rs_quinn_verif")]
+impl Dedup {
+    pub(super) fn verif_state(&self) -> (u128, u64) {
+        (self.window, self.next)
+    }
+}
+
 /// Inner bitfield type
 ///
 /// Because QUIC never reuses packet numbers, this only needs to be large enough to deal with
